@@ -201,15 +201,24 @@ def h_data(ctx):
     thr_sets = ctx.params["thresholds"]
     bin_type = ctx.choose("bin", BIN_TYPES, free=True)
     thr = ctx.choose("thresholds", thr_sets, free=True)
-    ref = RD.RefData([ai])
+    # deviation: -T 48 (mean over the trailing 48 h of lead times): every probability then comes from the pre-aggregated members,
+    # and a member missing at one lead time is missing in the windows that contain it
+    agg = ctx.choose("-T", (None, 48)) if ctx.params.get("agg") else None
+    kwr, kwd = {}, {}
+    if agg is not None:
+        import verif.aggregator
+        kwr = {"agg_len": agg, "agg_axis": "leadtime", "agg_method": "mean"}
+        kwd = {"dim_agg_length": agg, "dim_agg_axis": verif.axis.Leadtime(), "dim_agg_method": verif.aggregator.Mean()}
+        ctx.flag("agg")
+    ref = RD.RefData([ai], **kwr)
     if via == "mem":
-        kind, data, site, out = CD.make_data([ai])
+        kind, data, site, out = CD.make_data([ai], **kwd)
     else:
-        kind, data, site, out = CD.make_data([ai], via=via, subdir="c08" + via)
+        kind, data, site, out = CD.make_data([ai], via=via, subdir="c08" + via, **kwd)
     if kind != "ok":
         ctx.fail("data-%s:%s" % (kind, site), stdout=out[-200:])
         return
-    ctx.note("case", {"bin": bin_type, "thresholds": thr, "missing": [l for l, c in zip(ctx.labels, ctx.choices) if str(l).startswith("miss") and c]})
+    ctx.note("case", {"bin": bin_type, "thresholds": thr, "-T": agg, "missing": [l for l, c in zip(ctx.labels, ctx.choices) if str(l).startswith("miss") and c]})
     sig = []
     kindi, intervals, sitei, _ = H.quiet_call(verif.util.get_intervals, bin_type, np.array(thr, dtype=float))
     if kindi != "ok":
@@ -418,7 +427,7 @@ def plan(tier):
     q = tier == "quick"
     thr = [[1.0, 3.0], [2.0], [1.5, 2.5], [1.0], [3.0], [0.1]]      # 0.1: stored, but not exactly representable in the NetCDF file's float32
     return [("formulas", h_formulas, {"maxlen": 3 if q else 4}, "full", None),
-            ("data-mem", h_data, {"via": "mem", "missfields": ["obs", "p1", "e0", "e2"], "thresholds": thr, "axes": ["no", "leadtime"]}, "dev", 1 if q else 2),
+            ("data-mem", h_data, {"via": "mem", "missfields": ["obs", "p1", "e0", "e2"], "thresholds": thr, "axes": ["no", "leadtime"], "agg": True}, "dev", 2),
             ("data-text", h_data, {"via": "text", "missfields": ["p3", "e1"], "thresholds": thr[:3] + thr[5:], "axes": ["no", "location"]}, "dev", 1),
             ("data-nc", h_data, {"via": "nc", "missfields": ["e0"], "thresholds": thr[:3] + thr[5:], "axes": ["no"]}, "dev", 1),
             ("quant-mem", h_quant, {"via": "mem", "missfields": ["obs", "q0.1", "e1", "pit"], "axes": ["no", "leadtime"]}, "dev", 1 if q else 2),
@@ -434,7 +443,7 @@ def run(tier, only=None):
         st = explore.explore(h, mode=mode, k=k, params=params, repo_root=core.REPO, time_cap=(300 if tier == "quick" else 3000))
         subs.append(core.Sub.from_e1(name, st, bound=("full product" if mode == "full" else "dev(%d) over missing cells x full over bin types and threshold/quantile sets" % k) + " %r" % ({a: b for a, b in params.items() if a != "thresholds"},),
                                      rule="one execution = one probability vector / one dataset x bin type x threshold (quantile) set; every slice of every metric compared with the reference definition",
-                                     required_flags=("decomposition",) if name == "formulas" else (), wall=time.time() - t0))
+                                     required_flags=("decomposition",) if name == "formulas" else ("agg",) if name == "data-mem" else (), wall=time.time() - t0))
     return subs
 
 
